@@ -13,6 +13,7 @@ package main
 import (
 	"bytes"
 	"fmt"
+	"regexp"
 	"sort"
 	"strings"
 
@@ -103,7 +104,23 @@ func c34(sum *lib.Summary) {
 	}
 	for _, c := range loadCorpus("C34") {
 		sum.Count("corpus")
-		if c.Coq != "" {
+		if c.Contract != "" {
+			// the contract is deployed at 0x1 and 0x2 on one fresh host per engine, then the script runs
+			m := regexp.MustCompile(`contract\s+(\w+)`).FindStringSubmatch(c.Contract)
+			var obs [2]observed
+			for e, vm := range []bool{false, true} {
+				hc := lib.NewHost()
+				for _, a := range []byte{1, 2} {
+					hc.Deploy(common.MustBytesToAddress([]byte{a}), m[1], c.Contract, vm)
+				}
+				obs[e] = observe(hc.RunScript(c.Src, nil, vm))
+				sum.Evaluations++
+			}
+			if !obs[0].same(obs[1]) {
+				sum.Fail("engines-differ:corpus:"+c.Name, fmt.Sprintf("interpreter and VM disagree on corpus:%s: interpreter %s; VM %s", c.Name, obs[0], obs[1]),
+					map[string]any{"name": c.Name, "contract": c.Contract, "source": c.Src, "interpreter": obs[0].String(), "vm": obs[1].String()})
+			}
+		} else if c.Coq != "" {
 			fragment("corpus:"+c.Name, c.Src, c.Coq, nil)
 		} else {
 			// engine comparison only
@@ -168,6 +185,34 @@ func c34(sum *lib.Summary) {
 		if !o0.same(ov) {
 			sum.Fail("direct-vm-differs:ext:"+name, fmt.Sprintf("VM through the runtime and directly compiled VM disagree on a %s program: runtime %s; direct %s", name, ov, o0),
 				map[string]any{"template": name, "source": src, "runtime_vm": ov.String(), "direct_vm": o0.String()})
+		}
+	}
+
+	// ---------------------------------------------------------------- (b) literal-rich programs (constant pool)
+	h = lib.NewHost()
+	nlit := 400
+	if *tier == "thorough" {
+		nlit = 5000
+	}
+	for i := 0; i < nlit; i++ {
+		if i%80 == 79 {
+			h = lib.NewHost()
+		}
+		name, src := litProgram(rng)
+		oi := observe(h.RunScript(src, nil, false))
+		ov := observe(h.RunScript(src, nil, true))
+		sum.Evaluations += 2
+		if oi.Class == "CheckerError" || oi.Class == "ParseError" {
+			sum.Count("lit-rejected")
+			sum.Fail("generator:rejected:"+name, fmt.Sprintf("literal program rejected by the checker: %v", head(fmt.Sprint(h.RunScript(src, nil, false).Err), 600)),
+				map[string]any{"source": src})
+			continue
+		}
+		sum.Count(name + ":" + outcomeTag(oi))
+		note(src, oi)
+		if !oi.same(ov) {
+			sum.Fail("engines-differ:"+name, fmt.Sprintf("interpreter and VM disagree on a literal-rich program: interpreter %s; VM %s", oi, ov),
+				map[string]any{"source": src, "interpreter": oi.String(), "vm": ov.String()})
 		}
 	}
 
